@@ -28,7 +28,7 @@ CONFIG = {
     "C11": dict(algos=None, families=None, n=(150, 2000)),
     "C12": dict(algos=None, families=None, n=(200, 2000), size_sweep=True),
     "C13": dict(algos=None, families=None, n=(250, 4000)),
-    "C14": dict(algos=["ID", "SRC"], families=["star", "mesh", "meshx", "tree", "custom"], n=(200, 3000)),
+    "C14": dict(algos=["ID", "SRC"], families=["star", "mesh", "meshx", "tree", "custom"], n=(200, 3000), chain_sweep=True),
 }
 
 
@@ -104,6 +104,12 @@ def sweep_cases(pid, tier, rng):
                 cfg = gen_desc.gen_tree(rng, algo, "axi", tree=t)
                 if cfg:
                     out.append((f"tree-sweep:{algo}:{t}", cfg))
+    if conf.get("chain_sweep"):
+        for algo in ["ID", "SRC"]:
+            for m in ([3, 5, 7, 9] if big else [5, 7]):
+                cfg = gen_desc.gen_chain_express(rng, algo, rng.choice(["axi", "narrow-wide"]), m)
+                if cfg:
+                    out.append((f"chain-express:{algo}:{m}", cfg))
     if conf.get("size_sweep"):
         sizes = [(12, 11), (12, 12), (11, 2), (2, 11)] if big else [(11, 2), (4, 4)]
         for (m, n) in sizes:
@@ -115,6 +121,9 @@ def sweep_cases(pid, tier, rng):
             cfg = gen_desc.gen_tree(rng, "ID", "axi", tree=[1, fan])
             if cfg:
                 out.append((f"fanout-sweep:{fan}", cfg))
+        cfg = gen_desc.gen_deep_tree(rng, "ID", "axi", [1, 12, 11])
+        if cfg:
+            out.append(("deep-tree:[1,12,11]", cfg))
     return out
 
 
